@@ -30,16 +30,30 @@ RULE = (
     "reset, and ids were announced afterwards. Distinct = distinct (workers, plan per link, reset)."
 )
 ASSUMPTIONS = [
+    "end-to-end shards: a real gunicorn/uvicorn server process tree started from the tree under test (vf/e2e_launch.py: the repository's run_with_gunicorn / run_with_uvicorn; the SQL schema is made with the repository's metadata.create_all because its alembic env.py does not run with the installed SQLAlchemy; the notifier's fixed TCP port 6000 is replaced by a free port), spoken to over loopback TCP with the websockets client; real time, real sleeps",
     "all workers live in one process/loop but talk over real loopback TCP sockets through the proxy; the notifier's 2 s connect delay is virtualised",
     "workers share one SQLite file like gunicorn workers do; LMDB is not used here (one environment cannot be opened twice in a process)",
     "after a peer was reset only the surviving workers are judged, and only for ids announced after the reset completed",
 ]
 MIN_NONTRIVIAL = {"quick": 8, "thorough": 40}
-REQUIRED_COUNTERS = ["ids_announced", "deliveries_checked", "pushes_checked", "misaligned_chunks", "resubmissions", "deployment_configs", "crowded_workers"]
+REQUIRED_COUNTERS = ["e2e.e2e_pairs_checked", "e2e.e2e_cross_worker_pairs", "e2e.e2e_resubmission_pairs", "ids_announced", "deliveries_checked", "pushes_checked", "misaligned_chunks", "resubmissions", "deployment_configs", "crowded_workers"]
 SHARD_TIMEOUT = {"quick": 600, "thorough": 3200}
 
 
 def plan(tier, seed):
+    return _plan(tier, seed) + e2e_plan(tier, seed)
+
+
+def e2e_plan(tier, seed):
+    """shards on a REAL server process tree (vf/e2e.py)"""
+    out = []
+    for i in range(1 if tier == "quick" else 6):
+        out.append({"mode": "e2e", "e2e": "c20", "backend": "sql", "workers": 3 if i % 2 == 0 else 2, "seed": seed * 7919 + i, "nevents": 40 if tier == "quick" else 120})
+        out.append({"mode": "e2e", "e2e": "c20", "backend": "lmdb", "workers": 2 if i % 2 == 0 else 3, "seed": seed * 7919 + i, "nevents": 40 if tier == "quick" else 120})
+    return out
+
+
+def _plan(tier, seed):
     r = random.Random(seed)
     sizes = list(range(1, 64))
     if tier == "quick":
@@ -478,6 +492,10 @@ def kclass(kind):
 
 
 def run_shard(spec):
+    if spec.get("mode") == "e2e":
+        from .. import e2e_cases
+
+        return e2e_cases.run_e2e_shard(ID, spec)
     counters = {}
     viols, nontrivial, samples = [], [], []
     r = random.Random(spec["case_seed"])
@@ -505,6 +523,10 @@ def run_shard(spec):
 
 
 def replay(rp, spec):
+    if rp.get("mode") == "e2e":
+        from .. import e2e_cases
+
+        return e2e_cases.run_e2e_shard(ID, rp)
     counters = {}
     if rp.get("mode") == "deployment":
         v, nt = R.run(run_deployment, counters)
